@@ -322,7 +322,9 @@ static void set_params(tjhandle tj, const spec_t *s, int with_mode)
   tj3Set(tj, TJPARAM_ARITHMETIC, with_mode && (s->mode & 4) ? 1 : 0);
   tj3Set(tj, TJPARAM_LOSSLESS, with_mode && (s->mode & 8) ? 1 : 0);
   if (with_mode && (s->mode & 8)) { tj3Set(tj, TJPARAM_LOSSLESSPSV, 1 + (int)(s->seed % 7)); tj3Set(tj, TJPARAM_LOSSLESSPT, 0); }
+  tj3Set(tj, TJPARAM_RESTARTROWS, 0);
   tj3Set(tj, TJPARAM_RESTARTBLOCKS, with_mode && (s->mode & 16) ? 3 : 0);
+  if (with_mode && (s->mode & 512)) tj3Set(tj, TJPARAM_RESTARTROWS, 1);
 }
 
 static unsigned char *make_icc(long n)
@@ -387,7 +389,9 @@ static int do_op(tjhandle tj, const spec_t *s, unsigned char **buf, size_t *size
       tj3Set(tj, TJPARAM_OPTIMIZE, (s->mode & 2) ? 1 : 0);
       tj3Set(tj, TJPARAM_ARITHMETIC, (s->mode & 4) ? 1 : 0);
       tj3Set(tj, TJPARAM_LOSSLESS, 0);
+      tj3Set(tj, TJPARAM_RESTARTROWS, 0);
       tj3Set(tj, TJPARAM_RESTARTBLOCKS, (s->mode & 16) ? 3 : 0);
+      if (s->mode & 512) tj3Set(tj, TJPARAM_RESTARTROWS, 1);
       if (s->mode & 128) { hostile_pattern = (int)(s->seed & 7); hostile_max = (s->mode & 256) ? 16383 : 1023; xf.customFilter = hostile_filter; }
       rc = tj3Transform(tj, src, srcsize, 1, buf, size, &xf);
     }
@@ -811,6 +815,39 @@ done:
   heap_reset();
 }
 
+/* xcrop op w h subsamp rx ry rw rh quality seed: tj3TransformBufSize() against tj3Transform() for a cropped transform
+   (rw / rh = 0 means "to the edge" of the DESTINATION image): accept/reject agreement and bound >= actual output;
+   then NOREALLOC into exactly the returned size.  High-entropy source (uniform noise). */
+static void run_xcrop(char *p)
+{
+  int op = strtol(p, &p, 10), w = strtol(p, &p, 10), h = strtol(p, &p, 10), ss = strtol(p, &p, 10);
+  int rx = strtol(p, &p, 10), ry = strtol(p, &p, 10), rw = strtol(p, &p, 10), rh = strtol(p, &p, 10), q = strtol(p, &p, 10);
+  long seed = strtol(p, &p, 10); int gray = ss == TJSAMP_GRAY, ps = gray ? 1 : 3, rc, rc2 = -1;
+  unsigned char *img = make_image(2, w, h, ps, seed), *src, *src0, *ref = NULL, *buf; size_t srccap = (size_t)w * h * 4 + 65536, srcsize = srccap;
+  size_t cap, size = 0, total = 0; tjhandle c = tj3Init(TJINIT_COMPRESS), x = tj3Init(TJINIT_TRANSFORM); tjtransform xf; const char *st = "skipped";
+  src = src0 = malloc(srccap);
+  tj3Set(c, TJPARAM_QUALITY, q); tj3Set(c, TJPARAM_SUBSAMP, ss);
+  rc = tj3Compress8(c, img, w, 0, h, gray ? TJPF_GRAY : TJPF_RGB, &src, &srcsize);
+  if (rc || src != src0) { printf("xcrop setup-failed\n"); goto done; }
+  memset(&xf, 0, sizeof xf); xf.op = op; xf.options = TJXOPT_CROP | TJXOPT_COPYNONE; xf.r.x = rx; xf.r.y = ry; xf.r.w = rw; xf.r.h = rh;
+  if (tj3DecompressHeader(x, src, srcsize)) { printf("xcrop header-failed\n"); goto done; }
+  cap = tj3TransformBufSize(x, &xf);
+  rc = tj3Transform(x, src, srcsize, 1, &ref, &size, &xf);
+  if (rc == 0) total = size;
+  if (ref) dm_free(ref, 1);
+  if (cap > 0 && rc == 0) {
+    unsigned char *b0;
+    tj3Set(x, TJPARAM_NOREALLOC, 1);
+    buf = b0 = dm_alloc(cap, 1, 0, NULL); size = cap;
+    rc2 = tj3Transform(x, src, srcsize, 1, &buf, &size, &xf);
+    st = rc2 == 0 ? (size <= cap && buf == b0 && size == total ? "ok" : "BADSIZE") : strstr(tj3GetErrorStr(x), "too small") ? "bufsize" : "other";
+  }
+  printf("xcrop cap=%zu sizefn=%s transform=%s total=%zu norealloc=%s\n", cap, cap ? "accept" : "reject", rc == 0 ? "accept" : "reject", total, st);
+done:
+  free(src0); free(img); tj3Destroy(c); tj3Destroy(x);
+  heap_reset();
+}
+
 /* hk prec pat nbw leave alloc: the longest codes a Huffman table can have (lengths 1..16, the 16-bit code
    1111111111111110 for the largest magnitude category) on coefficients of maximal magnitude, written with the
    libjpeg coefficient API (jpeg_write_coefficients) at data precision prec (8 or 12) into the TurboJPEG
@@ -883,7 +920,10 @@ int main(void)
       parse_spec(&p, &s); r = reference(&s);
       { size_t k, sos = 0;
         for (k = 0; k + 3 < r->size; k++) if (r->data[k] == 0xFF && r->data[k + 1] == 0xDA) { sos = k + 2 + ((size_t)r->data[k + 2] << 8 | r->data[k + 3]); break; }
-        printf("size %zu dec=%s sos=%zu\n", r->size, r->dec ? "ok" : "fail", sos); }
+        printf("size %zu dec=%s sos=%zu rst=", r->size, r->dec ? "ok" : "fail", sos);
+        { int cnt = 0; for (k = sos; k + 1 < r->size && cnt < 200; k++)
+            if (r->data[k] == 0xFF && r->data[k + 1] >= 0xD0 && r->data[k + 1] <= 0xD7) { printf("%s%zu", cnt ? "," : "", k); cnt++; } }
+        printf("\n"); }
       heap_reset();
     } else if (!strncmp(line, "wc ", 3)) run_wc(line + 3);
     else if (!strncmp(line, "bufsize ", 8)) {
@@ -894,6 +934,7 @@ int main(void)
     else if (!strncmp(line, "xicc ", 5)) { lgn = 0; run_xicc(line + 5); }
     else if (!strncmp(line, "hk ", 3)) run_hk(line + 3);
     else if (!strncmp(line, "xmk ", 4)) { lgn = 0; run_xmk(line + 4); }
+    else if (!strncmp(line, "xcrop ", 6)) { lgn = 0; run_xcrop(line + 6); }
     else if (!strncmp(line, "icc ", 4)) {
       long n = strtol(line + 4, NULL, 10); spec_t s = { 1, 16, 16, TJPF_RGB, TJSAMP_420, 75, 1, 0, -1, 0 }; size_t a, b;
       a = reference(&s)->size; s.icc = n; b = reference(&s)->size;
